@@ -595,6 +595,232 @@ Proof.
   repeat split; try assumption; try reflexivity. lia.
 Qed.
 
+(* ------------------------------------------------ look-ahead table (look_fill) *)
+Lemma fold_fill_length : forall cnt a base val (tab : list Z),
+  length (fold_left (fun tb k => upd (Z.to_nat (base + Z.of_nat k)) val tb) (seq a cnt) tab)
+  = length tab.
+Proof.
+  induction cnt as [|cnt IH]; intros a base val tab; cbn [seq fold_left]; [reflexivity|].
+  rewrite IH. apply upd_length.
+Qed.
+
+Lemma fold_fill_nth : forall cnt a base val tab x, 0 <= base ->
+  nth x (fold_left (fun tb k => upd (Z.to_nat (base + Z.of_nat k)) val tb) (seq a cnt) tab) 0 =
+  if (base + Z.of_nat a <=? Z.of_nat x) && (Z.of_nat x <? base + Z.of_nat a + Z.of_nat cnt)
+     && (x <? length tab)%nat
+  then val else nth x tab 0.
+Proof.
+  induction cnt as [|cnt IH]; intros a base val tab x Hb; cbn [seq fold_left].
+  - destruct ((base + Z.of_nat a <=? Z.of_nat x) && (Z.of_nat x <? base + Z.of_nat a + Z.of_nat 0)
+              && (x <? length tab)%nat) eqn:E; [lia|reflexivity].
+  - rewrite IH by exact Hb. rewrite upd_length, nth_upd.
+    destruct ((base + Z.of_nat (S a) <=? Z.of_nat x) && (Z.of_nat x <? base + Z.of_nat (S a) + Z.of_nat cnt)
+              && (x <? length tab)%nat) eqn:E1;
+    destruct ((base + Z.of_nat a <=? Z.of_nat x) && (Z.of_nat x <? base + Z.of_nat a + Z.of_nat (S cnt))
+              && (x <? length tab)%nat) eqn:E2;
+    destruct ((x =? Z.to_nat (base + Z.of_nat a))%nat && (Z.to_nat (base + Z.of_nat a) <? length tab)%nat) eqn:E3;
+    try reflexivity; lia.
+Qed.
+
+Lemma look_fill_length : forall codes sizes vals tab,
+  length (look_fill codes sizes vals tab) = length tab.
+Proof.
+  induction codes as [|c ct IH]; intros sizes vals tab; [reflexivity|].
+  destruct sizes as [|s st]; [reflexivity|]. destruct vals as [|v vt]; [reflexivity|].
+  cbn [look_fill]. destruct (s <=? HUFF_LOOKAHEAD); [|reflexivity].
+  rewrite IH. apply fold_fill_length.
+Qed.
+
+Definition in_range8 (c s x : Z) : Prop :=
+  c * 2 ^ (8 - s) <= x < (c + 1) * 2 ^ (8 - s).
+
+Lemma look_fill_miss : forall codes sizes vals tab x,
+  (forall j, (j < length codes)%nat -> (j < length sizes)%nat -> (j < length vals)%nat ->
+     nth j sizes 0 <= 8 ->
+     0 <= nth j codes 0 /\ ~ in_range8 (nth j codes 0) (nth j sizes 0) (Z.of_nat x)) ->
+  nth x (look_fill codes sizes vals tab) 0 = nth x tab 0.
+Proof.
+  induction codes as [|c ct IH]; intros sizes vals tab x H; [reflexivity|].
+  destruct sizes as [|s st]; [reflexivity|]. destruct vals as [|v vt]; [reflexivity|].
+  cbn [look_fill]. unfold HUFF_LOOKAHEAD. destruct (s <=? 8) eqn:Es; [|reflexivity].
+  rewrite IH.
+  - destruct (H 0%nat ltac:(cbn; lia) ltac:(cbn; lia) ltac:(cbn; lia) ltac:(cbn; lia)) as [H0 H1].
+    cbn [nth] in H0, H1. unfold in_range8 in H1.
+    assert (0 < 2 ^ (8 - s)) by (apply Z.pow_pos_nonneg; lia).
+    rewrite fold_fill_nth by nia.
+    rewrite Z2Nat.id by lia.
+    destruct ((c * 2 ^ (8 - s) + Z.of_nat 0 <=? Z.of_nat x)
+              && (Z.of_nat x <? c * 2 ^ (8 - s) + Z.of_nat 0 + 2 ^ (8 - s))
+              && (x <? length tab)%nat) eqn:E; [exfalso; apply H1; lia|reflexivity].
+  - intros j J1 J2 J3 J4.
+    apply (H (S j)); cbn [length nth]; first [lia | exact J4].
+Qed.
+
+Lemma look_fill_hit : forall codes sizes vals tab k x,
+  (k < length codes)%nat -> (k < length sizes)%nat -> (k < length vals)%nat ->
+  (forall j, (j <= k)%nat -> nth j sizes 0 <= 8 /\ 0 <= nth j codes 0) ->
+  in_range8 (nth k codes 0) (nth k sizes 0) (Z.of_nat x) ->
+  (x < length tab)%nat ->
+  (forall j, (k < j)%nat -> (j < length codes)%nat -> (j < length sizes)%nat ->
+     nth j sizes 0 <= 8 ->
+     0 <= nth j codes 0 /\ ~ in_range8 (nth j codes 0) (nth j sizes 0) (Z.of_nat x)) ->
+  nth x (look_fill codes sizes vals tab) 0 = nth k sizes 0 * 256 + nth k vals 0.
+Proof.
+  induction codes as [|c ct IH]; intros sizes vals tab k x K1 K2 K3 Hle Hin Hx Hlater;
+    cbn [length] in K1; [lia|].
+  destruct sizes as [|s st]; cbn [length] in K2; [lia|].
+  destruct vals as [|v vt]; cbn [length] in K3; [lia|].
+  cbn [look_fill]. unfold HUFF_LOOKAHEAD.
+  destruct (Hle 0%nat ltac:(lia)) as [Hs0 Hc0]. cbn [nth] in Hs0, Hc0.
+  destruct (s <=? 8) eqn:Es; [|lia].
+  assert (Hp : 0 < 2 ^ (8 - s)) by (apply Z.pow_pos_nonneg; lia).
+  destruct k as [|k].
+  - cbn [nth] in *. rewrite look_fill_miss.
+    + rewrite fold_fill_nth by nia. rewrite Z2Nat.id by lia. unfold in_range8 in Hin.
+      destruct ((c * 2 ^ (8 - s) + Z.of_nat 0 <=? Z.of_nat x)
+                && (Z.of_nat x <? c * 2 ^ (8 - s) + Z.of_nat 0 + 2 ^ (8 - s))
+                && (x <? length tab)%nat) eqn:E; [reflexivity|lia].
+    + intros j J1 J2 J3 J4. apply (Hlater (S j)); cbn [length nth]; first [lia | exact J4].
+  - cbn [nth]. apply IH; try lia.
+    + intros j Hj. apply (Hle (S j)). lia.
+    + exact Hin.
+    + rewrite fold_fill_length. exact Hx.
+    + intros j J0 J1 J2 J4. apply (Hlater (S j)); cbn [length nth]; first [lia | exact J4].
+Qed.
+
+Lemma div256 : forall a b, 0 <= b < 256 ->
+  (a * 256 + b) / 256 = a /\ (a * 256 + b) mod 256 = b.
+Proof. intros a b H. Z.div_mod_to_equations. lia. Qed.
+
+Lemma skipn_bits_of : forall s c rest, skipn s (bits_of s c ++ rest) = rest.
+Proof. induction s; intros; cbn; auto. Qed.
+
+(* ------------------------------------------ decoding one code word, any path *)
+Section Decode.
+  Variables (bits16 sizes codes vs : list Z) (dt : dtbl) (k : nat) (rest : list bool).
+  Hypothesis Hlen16 : length bits16 = 16%nat.
+  Hypothesis Hsizes : huffsizes bits16 1 0 = Some sizes.
+  Hypothesis Hcodes : gen_codes sizes = Some codes.
+  Hypothesis Hk : (k < length sizes)%nat.
+  Hypothesis Hkv : (k < length vs)%nat.
+  Hypothesis Tmc : maxcode dt = (0 :: map fst (d_scan bits16 codes 0)) ++ [1048575].
+  Hypothesis Tvo : valoffset dt = (0 :: map snd (d_scan bits16 codes 0)) ++ [0].
+  Hypothesis Tlk : lookup dt = look_fill codes sizes vs (repeat ((HUFF_LOOKAHEAD + 1) * 256) 256).
+  Hypothesis Tdv : d_vals dt = vs.
+
+  Let L := nth k sizes 0.
+  Let c := nth k codes 0.
+  Let sym := nth k vs 0.
+  Let word := bits_of (Z.to_nat L) c.
+
+  Lemma decode_serial_min : forall mb : nat, (1 <= mb)%nat -> Z.of_nat mb <= L ->
+    decode_serial dt mb (word ++ rest) = Some (sym, false, rest).
+  Proof.
+    intros mb Hmb1 HmbL.
+    pose proof (core _ _ _ Hlen16 Hsizes Hcodes k Hk) as Hcore. cbv zeta in Hcore.
+    rewrite <- Tmc, <- Tvo in Hcore. fold L c in Hcore.
+    destruct Hcore as (HL & Hfit & Hgt & Hle & Hvo).
+    unfold decode_serial, word.
+    assert (HLn : Z.to_nat L = (mb + (Z.to_nat L - mb))%nat) by lia.
+    rewrite HLn.
+    pose proof (take_code_bits mb (Z.to_nat L - mb) c rest ltac:(lia)) as Ht.
+    rewrite <- HLn in Ht at 2. rewrite Z2Nat.id in Ht by lia.
+    rewrite (Z.div_small c (2 ^ L)) in Ht by lia.
+    rewrite Ht.
+    assert (Hm : Z.of_nat (Z.to_nat L - mb) = L - Z.of_nat mb) by lia.
+    rewrite (serial_run (Z.to_nat L - mb) 20 dt c (Z.of_nat mb) rest); try lia.
+    - rewrite Hm. replace (Z.of_nat mb + (L - Z.of_nat mb)) with L by lia.
+      rewrite Hvo. rewrite Nat2Z.id. rewrite Tdv. reflexivity.
+    - intros i Hi. rewrite Hm.
+      replace (L - Z.of_nat mb - i) with (L - (Z.of_nat mb + i)) by lia.
+      apply Hgt. lia.
+    - rewrite Hm. replace (Z.of_nat mb + (L - Z.of_nat mb)) with L by lia. exact Hle.
+  Qed.
+
+  Lemma decode_lookahead_word : 0 <= sym <= 255 ->
+    decode_lookahead dt (word ++ rest) = Some (sym, false, rest).
+  Proof.
+    intros Hsym.
+    pose proof (core _ _ _ Hlen16 Hsizes Hcodes k Hk) as Hcore. cbv zeta in Hcore.
+    fold L c in Hcore. destruct Hcore as (HL & Hfit & _).
+    pose proof (huffsizes_sorted _ _ _ _ Hsizes) as Hs.
+    pose proof (gen_codes_len _ _ Hs Hcodes) as Hcl.
+    unfold decode_lookahead.
+    destruct (8 <=? length (word ++ rest))%nat eqn:E8;
+      [|apply decode_serial_min; lia].
+    rewrite app_length in E8. unfold word in E8. rewrite bits_of_length in E8.
+    destruct (L <=? 8) eqn:EL.
+    - (* table hit *)
+      replace (take_code 8 (word ++ rest) 0)
+        with (take_code (Z.to_nat L + (8 - Z.to_nat L)) (word ++ rest) 0) by (f_equal; lia).
+      rewrite take_code_app. unfold word.
+      pose proof (take_code_bits (Z.to_nat L) 0 c rest ltac:(lia)) as Ht.
+      rewrite Nat.add_0_r, Z2Nat.id in Ht by lia.
+      rewrite (Z.div_small c (2 ^ L)) in Ht by lia.
+      cbn [bits_of app Z.of_nat Z.pow] in Ht. rewrite Z.div_1_r in Ht. rewrite Ht.
+      destruct (take_code_bound (8 - Z.to_nat L) rest c ltac:(lia)) as (look & r & Hlook & Hb).
+      rewrite Hlook.
+      replace (Z.of_nat (8 - Z.to_nat L)) with (8 - L) in Hb by lia.
+      assert (Hp : 0 < 2 ^ (8 - L)) by (apply Z.pow_pos_nonneg; lia).
+      assert (Hpp : 2 ^ L * 2 ^ (8 - L) = 256)
+        by (rewrite <- Z.pow_add_r by lia; replace (L + (8 - L)) with 8 by lia; reflexivity).
+      assert (Hlk : nthZ (lookup dt) (Z.to_nat look) = L * 256 + sym).
+      { rewrite Tlk. unfold nthZ. apply look_fill_hit; try lia.
+        - intros j Hj. split.
+          + pose proof (sorted_from_mono _ _ Hs j k ltac:(lia)). fold L in H. lia.
+          + apply (codes_fit _ _ Hs Hcodes j). lia.
+        - unfold in_range8. fold L c. rewrite Z2Nat.id by nia. exact Hb.
+        - rewrite repeat_length. nia.
+        - intros j J0 J1 J2 J3. split; [apply (codes_fit _ _ Hs Hcodes j); lia|].
+          unfold in_range8. rewrite Z2Nat.id by nia.
+          pose proof (codes_prefix _ _ Hs Hcodes k j ltac:(lia)) as Hp3. fold L c in Hp3.
+          pose proof (sorted_from_mono _ _ Hs k j ltac:(lia)) as Hm. fold L in Hm.
+          assert (Hq : 0 < 2 ^ (8 - nth j sizes 0)) by (apply Z.pow_pos_nonneg; lia).
+          assert (Hsplit : 2 ^ (8 - L) = 2 ^ (nth j sizes 0 - L) * 2 ^ (8 - nth j sizes 0))
+            by (rewrite <- Z.pow_add_r by lia; f_equal; lia).
+          intros [R1 R2].
+          assert ((c + 1) * 2 ^ (8 - L) <= nth j codes 0 * 2 ^ (8 - nth j sizes 0)); [|lia].
+          rewrite Hsplit. rewrite Z.mul_assoc. apply Z.mul_le_mono_nonneg_r; lia. }
+      rewrite Hlk. unfold HUFF_LOOKAHEAD.
+      cbv zeta. destruct (div256 L sym ltac:(lia)) as [D1 D2]. rewrite D1, D2.
+      rewrite EL. rewrite skipn_bits_of. reflexivity.
+    - (* table miss: slow path with 9 bits *)
+      assert (HLn : Z.to_nat L = (8 + (Z.to_nat L - 8))%nat) by lia.
+      unfold word. rewrite HLn.
+      pose proof (take_code_bits 8 (Z.to_nat L - 8) c rest ltac:(lia)) as Ht.
+      rewrite <- HLn in Ht at 2. rewrite Z2Nat.id in Ht by lia.
+      rewrite (Z.div_small c (2 ^ L)) in Ht by lia.
+      rewrite Ht. rewrite <- HLn.
+      replace (Z.of_nat (Z.to_nat L - 8)) with (L - 8) by lia.
+      assert (Hp : 0 < 2 ^ (L - 8)) by (apply Z.pow_pos_nonneg; lia).
+      assert (Hlook : 0 <= c / 2 ^ (L - 8) < 256).
+      { split; [apply Z.div_pos; lia|].
+        apply Z.div_lt_upper_bound; [lia|].
+        replace (2 ^ (L - 8) * 256) with (2 ^ L); [lia|].
+        change 256 with (2 ^ 8). rewrite <- Z.pow_add_r by lia. f_equal; lia. }
+      assert (Hlk : nthZ (lookup dt) (Z.to_nat (c / 2 ^ (L - 8))) = (HUFF_LOOKAHEAD + 1) * 256).
+      { rewrite Tlk. unfold nthZ. rewrite look_fill_miss.
+        - rewrite nth_repeat_gen.
+          destruct (Nat.ltb (Z.to_nat (c / 2 ^ (L - 8))) 256) eqn:E; [reflexivity|lia].
+        - intros j J1 J2 J3 J4. split; [apply (codes_fit _ _ Hs Hcodes j); lia|].
+          unfold in_range8. rewrite Z2Nat.id by lia.
+          assert (Hjk : (j < k)%nat).
+          { destruct (Nat.ltb j k) eqn:E; [lia|].
+            pose proof (sorted_from_mono _ _ Hs k j ltac:(lia)) as Hm. fold L in Hm. lia. }
+          pose proof (codes_prefix _ _ Hs Hcodes j k ltac:(lia)) as Hp3. fold L c in Hp3.
+          pose proof (sorted_from_lb _ _ Hs j J2) as Hj1.
+          assert (Hsplit : 2 ^ (L - nth j sizes 0) = 2 ^ (L - 8) * 2 ^ (8 - nth j sizes 0))
+            by (rewrite <- Z.pow_add_r by lia; f_equal; lia).
+          intros [R1 R2].
+          assert ((nth j codes 0 + 1) * 2 ^ (8 - nth j sizes 0) <= c / 2 ^ (L - 8)); [|lia].
+          apply Z.div_le_lower_bound; [lia|].
+          rewrite Hsplit in Hp3. lia. }
+      rewrite Hlk. unfold HUFF_LOOKAHEAD.
+      replace ((8 + 1) * 256 / 256 <=? 8) with false by reflexivity.
+      apply (decode_serial_min 9); lia.
+  Qed.
+End Decode.
+
 (* ----------------------------------------------------------- main theorems *)
 Theorem c_d_tables_inverse_nonneg :
   forall bits vals maxsym isDC maxdc ct dt sym code rest,
@@ -608,26 +834,9 @@ Proof.
   intros bits vals maxsym isDC maxdc ct dt sym code rest Hlen Hc Hd He Hsym.
   destruct (tables_inv _ _ _ _ _ _ _ _ _ Hlen Hc Hd He Hsym)
     as (sizes & codes & k & T). cbv zeta in T.
-  destruct T as (L16 & Hsz & Hgc & Hk & Tmc & Tvo & _ & Tdv & Hkv & Hsymk & ->).
+  destruct T as (L16 & Hsz & Hgc & Hk & Tmc & Tvo & Tlk & Tdv & Hkv & <- & ->).
   pose proof (core _ _ _ L16 Hsz Hgc k Hk) as Hcore. cbv zeta in Hcore.
-  rewrite <- Tmc, <- Tvo in Hcore.
-  set (L := nth k sizes 0) in *. set (c := nth k codes 0) in *.
-  destruct Hcore as (HL & Hfit & Hgt & Hle & Hvo).
-  unfold decode_serial.
-  assert (HLn : Z.to_nat L = (1 + (Z.to_nat L - 1))%nat) by lia.
-  rewrite HLn.
-  pose proof (take_code_bits 1 (Z.to_nat L - 1) c rest ltac:(lia)) as Ht.
-  rewrite <- HLn in Ht at 2. rewrite Z2Nat.id in Ht by lia.
-  rewrite (Z.div_small c (2 ^ L)) in Ht by lia.
-  rewrite Ht.
-  change (Z.of_nat 1) with 1.
-  assert (Hm : Z.of_nat (Z.to_nat L - 1) = L - 1) by lia.
-  rewrite (serial_run (Z.to_nat L - 1) 20 dt c 1 rest); try lia.
-  - rewrite Hm. replace (1 + (L - 1)) with L by lia.
-    rewrite Hvo. rewrite Nat2Z.id. rewrite Tdv. unfold nthZ. rewrite Hsymk. reflexivity.
-  - intros i Hi. rewrite Hm. replace (L - 1 - i) with (L - (1 + i)) by lia.
-    apply Hgt. lia.
-  - rewrite Hm. replace (1 + (L - 1)) with L by lia. exact Hle.
+  eapply decode_serial_min; eauto; lia.
 Qed.
 
 Theorem c_d_tables_inverse :
@@ -639,3 +848,95 @@ Theorem c_d_tables_inverse :
   0 <= sym <= 255 ->
   decode_serial dt 1 (code ++ rest) = Some (sym, false, rest).
 Proof. intros; eapply c_d_tables_inverse_nonneg; eauto; lia. Qed.
+
+(* the HUFF_DECODE look-ahead path gives the same answer, for every length of
+   the following bit string (>= 8 bits available: table hit or 9-bit slow path;
+   < 8 bits available: slow path from 1 bit) *)
+Theorem lookahead_eq_serial :
+  forall bits vals maxsym isDC maxdc ct dt sym code rest,
+  length bits = 17%nat ->
+  make_c_derived bits vals maxsym = Some ct ->
+  make_d_derived bits vals isDC maxdc = Some dt ->
+  encode_sym ct sym = Some code ->
+  0 <= sym <= 255 ->
+  decode_lookahead dt (code ++ rest) = Some (sym, false, rest).
+Proof.
+  intros bits vals maxsym isDC maxdc ct dt sym code rest Hlen Hc Hd He Hsym.
+  destruct (tables_inv _ _ _ _ _ _ _ _ _ Hlen Hc Hd He ltac:(lia))
+    as (sizes & codes & k & T). cbv zeta in T.
+  destruct T as (L16 & Hsz & Hgc & Hk & Tmc & Tvo & Tlk & Tdv & Hkv & <- & ->).
+  eapply decode_lookahead_word; eauto.
+Qed.
+
+(* ------------------------------------------------------------ non-vacuity *)
+(* the four tables of jstdhuff.c pass both validators (maxsymbol 15 / 255 as in
+   jpeg_make_c_derived_tbl, DC symbols <= 15 as in jpeg_make_d_derived_tbl) *)
+Example std_tables_accepted :
+  forallb (fun t : bool * list Z * list Z => match t with
+           | (isDC, b, v) =>
+               (length b =? 17)%nat &&
+               match make_c_derived b v (if isDC then 15 else 255), make_d_derived b v isDC 15 with
+               | Some _, Some _ => true
+               | _, _ => false
+               end
+           end) std_tables = true.
+Proof. vm_compute. reflexivity. Qed.
+
+(* every symbol of the four standard tables has a code word *)
+Example std_tables_all_symbols_coded :
+  forallb (fun t : bool * list Z * list Z => match t with
+           | (isDC, b, v) =>
+               match make_c_derived b v (if isDC then 15 else 255) with
+               | Some ct => forallb (fun s => match encode_sym ct s with Some _ => true | None => false end) v
+               | None => false
+               end
+           end) std_tables = true.
+Proof. vm_compute. reflexivity. Qed.
+
+(* the hypotheses of the theorems are satisfiable: ZRL (0xF0) in the standard
+   luminance AC table has the 11-bit code 11111111001 *)
+Example c_d_tables_inverse_hyps_sat :
+  exists ct dt code,
+    length std_bits_ac_luminance = 17%nat /\
+    make_c_derived std_bits_ac_luminance std_val_ac_luminance 255 = Some ct /\
+    make_d_derived std_bits_ac_luminance std_val_ac_luminance false 15 = Some dt /\
+    encode_sym ct 240 = Some code /\
+    0 <= 240 <= 255 /\
+    code = [true; true; true; true; true; true; true; true; false; false; true].
+Proof.
+  destruct (make_c_derived std_bits_ac_luminance std_val_ac_luminance 255) as [ct|] eqn:Ec;
+    [|vm_compute in Ec; discriminate].
+  destruct (make_d_derived std_bits_ac_luminance std_val_ac_luminance false 15) as [dt|] eqn:Ed;
+    [|vm_compute in Ed; discriminate].
+  exists ct, dt, [true; true; true; true; true; true; true; true; false; false; true].
+  repeat split; try reflexivity; try lia.
+  vm_compute in Ec. inversion Ec; subst ct. vm_compute. reflexivity.
+Qed.
+
+(* ... and the theorems then give the decoding, on both paths, for any tail *)
+Example zrl_decodes : forall dt rest,
+  make_d_derived std_bits_ac_luminance std_val_ac_luminance false 15 = Some dt ->
+  let code := [true; true; true; true; true; true; true; true; false; false; true] in
+  decode_serial dt 1 (code ++ rest) = Some (240, false, rest) /\
+  decode_lookahead dt (code ++ rest) = Some (240, false, rest).
+Proof.
+  intros dt rest Hd code.
+  destruct c_d_tables_inverse_hyps_sat as (ct & dt' & code' & H1 & H2 & H3 & H4 & H5 & H6).
+  rewrite Hd in H3. inversion H3; subst dt' code'. fold code in H4.
+  split.
+  - eapply c_d_tables_inverse; eauto.
+  - eapply lookahead_eq_serial; eauto.
+Qed.
+
+(* a short code word (length <= 8: table hit) as well: symbol 1 = code 00 *)
+Example short_code_decodes : forall ct dt code rest,
+  make_c_derived std_bits_ac_luminance std_val_ac_luminance 255 = Some ct ->
+  make_d_derived std_bits_ac_luminance std_val_ac_luminance false 15 = Some dt ->
+  encode_sym ct 1 = Some code ->
+  code = [false; false] /\
+  decode_lookahead dt (code ++ rest) = Some (1, false, rest).
+Proof.
+  intros ct dt code rest Hc Hd He. split.
+  - vm_compute in Hc. inversion Hc; subst ct. vm_compute in He. inversion He. reflexivity.
+  - eapply lookahead_eq_serial; eauto; [reflexivity|lia].
+Qed.
